@@ -585,6 +585,33 @@ pub fn one_line(s: &str) -> String {
 }
 
 /// Run `f`, turning a panic into `Err`.
+/// Environments a conversion must not depend on (name, value or None = unset): one that says "no
+/// colour" in every convention, one that says "force colour" in every convention.
+pub const HOSTILE_ENVS: [(&str, &[(&str, Option<&str>)]); 2] = [
+    ("no-colour-everywhere", &[("NO_COLOR", Some("1")), ("CLICOLOR", Some("0")), ("CLICOLOR_FORCE", None), ("TERM", Some("dumb")), ("COLORTERM", None), ("CI", None), ("FORCE_COLOR", Some("0"))]),
+    ("force-colour-everywhere", &[("NO_COLOR", None), ("CLICOLOR", Some("1")), ("CLICOLOR_FORCE", Some("1")), ("TERM", Some("xterm-256color")), ("COLORTERM", Some("truecolor")), ("CI", Some("1")), ("FORCE_COLOR", Some("3"))]),
+];
+
+/// Run `f` with the given environment variables set / unset, then restore them. The environment is
+/// process-wide: call this only while no worker thread is running (between parallel sub-checks).
+pub fn with_env<T>(vars: &[(&str, Option<&str>)], f: impl FnOnce() -> T) -> T {
+    let saved: Vec<(String, Option<std::ffi::OsString>)> = vars.iter().map(|(k, _)| (k.to_string(), std::env::var_os(k))).collect();
+    for (k, v) in vars {
+        match v {
+            Some(v) => std::env::set_var(k, v),
+            None => std::env::remove_var(k),
+        }
+    }
+    let r = f();
+    for (k, v) in saved {
+        match v {
+            Some(v) => std::env::set_var(&k, v),
+            None => std::env::remove_var(&k),
+        }
+    }
+    r
+}
+
 pub fn guarded<T>(f: impl FnOnce() -> Result<T, String>) -> Result<T, String> {
     match std::panic::catch_unwind(std::panic::AssertUnwindSafe(f)) {
         Ok(r) => r,
@@ -614,6 +641,14 @@ pub fn main(
     run: impl FnOnce(&Args, &mut Report),
     replay: &ReplayFn,
 ) -> ! {
+    // A run is a function of the code under test and the seed, not of the caller's terminal
+    // settings: the colour conventions of the environment are neutralised before any thread starts
+    // (checks that are ABOUT the environment - C08, C09, the ambient-environment sub-checks - set
+    // what they need themselves). Some libraries read these lazily, once per process.
+    for k in ["NO_COLOR", "CLICOLOR", "CLICOLOR_FORCE", "FORCE_COLOR", "COLORTERM", "CI"] {
+        std::env::remove_var(k);
+    }
+    std::env::set_var("TERM", "xterm-256color");
     let args = parse_args();
     if let Some(path) = &args.replay {
         std::process::exit(replay_file(id, path, replay));
